@@ -82,10 +82,20 @@ def judge(rec, disperser, n, width, nsigmas, value, limits, relative, result):
     info = {"type": disperser, "n": n, "width": width, "nsigmas": nsigmas, "value": value,
             "limits": [lb, ub], "relative": bool(relative)}
 
+    # mechanism flag for the classifier: every retained point has a density below the smallest double, so the
+    # library's px/sum(px) is 0/0
+    underflow = False
+    if len(v) and not (sigma == 0 or int(n) < 2):
+        with np.errstate(all="ignore"):
+            lf = log_density(disperser, v, center, sigma)
+        underflow = bool(np.all(np.isnan(w)) and np.all(lf < -745.2))
+
     def chk(name, ok, **extra):
         d = None
         if not ok:
             d = dict(info, values=v[:12], weights=w[:12], npoints=len(v), **extra)
+            if underflow:
+                d["all_retained_densities_underflow"] = True
         return rec.check(name, ok, d)
 
     degenerate = (sigma == 0 or int(n) < 2)
@@ -501,6 +511,10 @@ def run_case(case, rec):
 
 
 def classify(case, v):
+    d = v.get("detail") or {}
+    if (d.get("all_retained_densities_underflow")
+            and v.get("monitor") in ("weights_finite_nonneg", "weights_sum_to_one", "proportional_to_density")):
+        return "C02/all-retained-densities-underflow-gives-nan"
     return None
 
 LEVEL_TEXT = ("Post-condition contracts on the real weights.get_weights judge every call of a generated workload that "
